@@ -189,6 +189,19 @@ def check(chk):
                      'no ErrorMessage subclass for error code %#06x (%s): it decodes as a generic ErrorMessage and its code-specific fields are dropped' % (code, sname))
         else:
             chk.ok('C04.registry', errs[code], 'error code %#06x (%s) -> %s' % (code, sname, errs[code].name))
+    # the registration itself: every class that has a code - 0x0000 (ServerError) included - is entered under it
+    reg_e = proto.func('ErrorMessageSubclass.__init__')
+    from .. import sem as _sem4
+    g4, fl4 = _sem4.flow_of(reg_e)
+    regs4 = [n for n in g4.stmt_nodes() if n.kind == 'stmt' and isinstance(n.ast, ast.Assign) and src(n.ast.targets[0]) == 'error_classes[cls.error_code]' and src(n.ast.value) == 'cls']
+    if len(regs4) != 1:
+        raise AnalysisError('ErrorMessageSubclass.__init__: error_classes[cls.error_code] = cls not found')
+    states4 = list(fl4.at(regs4[0]))
+    only_none = bool(states4) and all(fa.knows('cls.error_code is None') is False and fa.knows('cls.error_code') is None and
+                                      all(k in ('cls.error_code is None',) for k, _p in fa.items if 'error_code' in k) for fa, _c in states4)
+    chk.judge(only_none, 'C04.registry', regs4[0].ast, 'a class is registered under its error code unless the code is None (0x0000 is a code)',
+              'the registration is guarded by %s: ServerError has error code 0x0000, which such a test excludes, so an ERROR frame with code 0 decodes to the generic ErrorMessage '
+              '("Unknown") instead of ServerError' % sorted(k for fa, _c in states4 for k, _p in fa.items if 'error_code' in k))
     interp0 = Interp(proto, M.folder)
     for code, c in sorted(errs.items()):
         if code not in spec.ERROR_CODES:
